@@ -33,6 +33,8 @@ type c10Case struct {
 	Close   bool      `json:"close"`   // one more goroutine closes the client while the others run
 	// Disconnect: instead, one more goroutine ends the session gracefully (Disconnect) while the others run
 	Disconnect bool `json:"disconnect,omitempty"`
+	// Others: that many independent clients (own transports) connect at the same moment as this one: clients share no state
+	Others int `json:"others,omitempty"`
 	// reconnect variant
 	Cuts   int  `json:"cuts,omitempty"`
 	PingMs int  `json:"pingMs,omitempty"`
@@ -57,6 +59,7 @@ func c10Gen(rt *rapid.T, reconnect bool) c10Case {
 		c.PingMs = rapid.IntRange(1, 3).Draw(rt, "pingMs")
 		c.Direct = rapid.Bool().Draw(rt, "direct")
 	} else {
+		c.Others = rapid.SampledFrom([]int{0, 0, 3, 7}).Draw(rt, "others")
 		switch rapid.IntRange(0, 5).Draw(rt, "close") {
 		case 0:
 			c.Close = true
@@ -152,7 +155,28 @@ func c10BaseRun(tb rapid.TB, c c10Case) {
 		bpeerBrokerAuto(p, pk)
 	}
 	r.cli.Handle(HandlerFunc(func(*Message) {}))
-	r.connect(tb)
+	if c.Others > 0 {
+		var cw sync.WaitGroup
+		gate := make(chan struct{})
+		for k := 0; k < c.Others; k++ {
+			o := newBaseRig()
+			defer o.shutdown()
+			cw.Add(1)
+			go func() {
+				defer cw.Done()
+				<-gate
+				octx, oc := context.WithTimeout(context.Background(), 20*time.Second)
+				defer oc()
+				_, _ = o.cli.Connect(octx, "verif-other")
+			}()
+		}
+		cw.Add(1)
+		go func() { defer cw.Done(); <-gate; r.connect(tb) }()
+		close(gate)
+		cw.Wait()
+	} else {
+		r.connect(tb)
+	}
 	r.conn.unsafeMode, r.conn.yieldEvery = true, 2
 	ctx, cancel := context.WithCancel(context.Background())
 	defer cancel()
